@@ -250,6 +250,7 @@ def run(ctx):
                     var = par.targets[0].id
                 checked = False
                 wrong_bound = []
+                not_raising = []
                 if var is not None:
                     for t in cfg.nodes:
                         if t.kind == "test" and var in names_in(t.ast):
@@ -257,6 +258,12 @@ def run(ctx):
                             has_len = any(isinstance(c, ast.Call) and isinstance(c.func, ast.Name) and c.func.id in ("len", "range") for c in ast.walk(t.ast))
                             if lo is not None and has_len:
                                 checked = True
+                                # out of range means an error: no path from the failing side of the test returns a value
+                                bad_lab = "true" if lo else "false"
+                                raise_nodes = [cfg.node_of(r_) for r_ in walk_local(f.node) if isinstance(r_, ast.Raise)]
+                                for (m_, lab_) in t.succ:
+                                    if lab_ == bad_lab and not (m_ in raise_nodes or cfg.must_pass(m_, cfg.exit, raise_nodes, skip_labels=("exc",))):
+                                        not_raising.append(norm(t.ast))
                                 # the bound is the number of symbols (enum) / of branches (union: the schema is the list itself)
                                 lens = [c.args[0] for c in ast.walk(t.ast) if isinstance(c, ast.Call) and isinstance(c.func, ast.Name) and c.func.id == "len" and len(c.args) == 1]
                                 for la in lens:
@@ -277,6 +284,7 @@ def run(ctx):
                                 checked = checked or _helper_checks(a, cs.targets[0], bind_args(cs.targets[0], c), var)
                 ctx.check("C03.R3", f"{f.qualname}: {norm(n)} is range-checked", checked, f.where(n), f"{f.qualname}: {norm(n)}", "an enum/union index read off the wire is not compared with the number of symbols/branches in this function: an out-of-range index (e.g. in a skipped field) does not raise")
                 if checked:
+                    ctx.check("C03.R3", f"{f.qualname}: an out-of-range {norm(n)} always raises", not not_raising, f.where(n), f"{f.qualname}: after `{not_raising[0] if not_raising else ''}` fails a path returns normally", "an index outside the schema's range is turned into a value (a default, a clamped index) instead of an error")
                     ctx.check("C03.R3", f"{f.qualname}: {norm(n)} is compared with the number of " + ("symbols" if _method_name(n) == "read_enum" else "branches"), not wrong_bound, f.where(n), f"{f.qualname}: {norm(n)} bound len({', '.join(wrong_bound)})", "the index is compared with the length of something other than the symbol list (enum) / the union itself: an out-of-range index passes or a valid one is refused")
     if n_sinks < 1 or n_sources < 1:
         raise AnalysisError(f"C03.R3 anchors missing: {n_sources} index sources, {n_sinks} subscript sinks")
